@@ -13,6 +13,7 @@
 import Proofs.C07Real
 import Proofs.C07Fitting
 import Proofs.C07FittingOrder
+import Proofs.FittableTable
 
 namespace Taurex.C07
 open Taurex.Priors Taurex.OptimizerSM Taurex.FittingSection
@@ -232,6 +233,63 @@ theorem fitting_order_free (mkPrior : OptVal α → Option (Prior α)) (s0 : St 
   sectionSettings_perm mkPrior s0 ents ents' ls ls' hs hs' hperm hnd drecs
 
 end
+
+/-! ### the table the optimizer reads is the one the object declares (`Fittable`, `ForwardModel.fittingParameters`) -/
+
+section
+variable {α : Type} [OfNat α 0] [OfNat α 1]
+
+/-- **The optimizer's table is the declared one.**  For an object whose declarations (decorator or `add_fittable_param`,
+    also those made in a subclass constructor after `ForwardModel.__init__` returned) and `modify_bounds` calls all
+    succeed, the table holds exactly the declared names in declaration order, and each parameter is found under its name
+    with its declared mode and fit flag and with the bounds of the LAST `modify_bounds` naming it (its declared bounds when
+    there is none): these are the "current settings" every operation of the optimizer starts from. -/
+theorem declared_table_live (decls : List (FittableTable.Decl α)) (hist : List (String × α × α))
+    (t : List (FittableTable.Entry α)) (h : FittableTable.declaredTable decls hist = some t) :
+    t.map (·.name) = decls.map (·.name) ∧
+    ∀ d ∈ decls, FittableTable.lookup t d.name = some
+      { name := d.name, mode := d.entry.mode, fit := d.entry.fit,
+        b0 := (FittableTable.lastBounds d.name hist (d.entry.b0, d.entry.b1)).1,
+        b1 := (FittableTable.lastBounds d.name hist (d.entry.b0, d.entry.b1)).2 } :=
+  FittableTable.declaredTable_spec decls hist t h
+
+omit [OfNat α 0] [OfNat α 1] in
+/-- `modify_bounds` has an exact frame: every entry keeps its place, name, mode and fit flag; the named parameter gets
+    the new bounds and every other parameter is found unchanged; naming an undeclared parameter is an error. -/
+theorem modify_bounds_frame (t : List (FittableTable.Entry α)) (n : String) (b0 b1 : α) :
+    (∀ t', FittableTable.modifyBounds t n b0 b1 = some t' →
+      t'.map (fun e => (e.name, e.mode, e.fit)) = t.map (fun e => (e.name, e.mode, e.fit)) ∧
+      (∀ e, FittableTable.lookup t n = some e → FittableTable.lookup t' n = some { e with b0 := b0, b1 := b1 }) ∧
+      (∀ m, m ≠ n → FittableTable.lookup t' m = FittableTable.lookup t m)) ∧
+    (FittableTable.lookup t n = none → FittableTable.modifyBounds t n b0 b1 = none) := by
+  constructor
+  · intro t' h
+    refine ⟨FittableTable.modifyBounds_frame t t' n b0 b1 h, ?_, ?_⟩
+    · intro e he
+      rw [FittableTable.lookup_modifyBounds t t' n n b0 b1 h, he]
+      simp
+    · intro m hm
+      rw [FittableTable.lookup_modifyBounds t t' n m b0 b1 h]
+      have : (n == m) = false := by simpa using (fun h : n = m => hm h.symm)
+      cases FittableTable.lookup t m <;> simp [this]
+  · intro hn
+    have := FittableTable.modifyBounds_isSome t n b0 b1
+    rw [hn] at this
+    cases hm : FittableTable.modifyBounds t n b0 b1 with
+    | none => rfl
+    | some x => rw [hm] at this; simp at this
+
+end
+
+/-- non-vacuity: three declarations (one through the decorator without optional keywords, one added in the constructor),
+    a boundary change of the first and one of the last -/
+example : FittableTable.declaredTable (α := Rat)
+    [⟨"T", none, none, none⟩, ⟨"H2O", some .log, some true, some (1/1000, 1/10)⟩, ⟨"coeff_0", some .linear, some false, some (0, 5)⟩]
+    [("T", 300, 2000), ("coeff_0", 4, 1)] =
+    some [⟨"T", .linear, false, 300, 2000⟩, ⟨"H2O", .log, true, 1/1000, 1/10⟩, ⟨"coeff_0", .linear, false, 4, 1⟩] := by
+  decide +kernel
+
+example : FittableTable.modifyBounds (α := Rat) [⟨"T", .linear, false, 300, 2000⟩] "nope" 1 2 = none := by decide +kernel
 
 /-! ### non-vacuity: a state with two model parameters (one log), one observation parameter, one derived parameter -/
 
